@@ -165,8 +165,7 @@ static void explore(const Case &c, const std::string &prop, vf::Stats &st, size_
         case Act::ENVBP: { Theo::VM other(sib.code); other.setBreakPoint(a.loc.first, a.loc.second, true); rret = vm.setBreakPoint(a.loc.first, a.loc.second, true); break; }
         case Act::CLEAR: vm.clearBreakpoints(); break;
         case Act::STEPMODE: vm.setSteppingMode(a.val); break;
-        case Act::EXECUTE: { long long guard = 0; bool r = false; while (!r && guard++ < 16LL * (long long)R.T.size() + 64) r = vm.executeSingle();
-            if (!r) { viol(ni, &a, "execute(): no stop within " + std::to_string(guard) + " instructions, reference stops after " + std::to_string(msteps)); continue; } break; }
+        case Act::EXECUTE: vm.execute(); break;  // the real resume loop; only issued when the reference proves that a stop is reachable (a hang is caught by the per-program timer)
         case Act::SINGLE: rret = vm.executeSingle(); break;
         case Act::RESET: vm.reset(); break;
       }
@@ -291,9 +290,9 @@ static Level fam_FD(int ncorpus, int maxinc, int maxgaps) {
 int main(int argc, char **argv) {
   drv::Args args = drv::Args::parse(argc, argv); bool T = args.thorough();
   if (args.prop != "C05" && args.prop != "C06" && args.prop != "C17" && args.prop != "C19") { fprintf(stderr, "ERROR: unknown property\n"); return 2; }
-  std::vector<Level> L = {fam_curated(100), fam_FA(2), fam_FC(1, 16), fam_FB(2), fam_FD(8, 1, 3), fam_FB(3)};
-  if (T) { L.push_back(fam_FC(2, 8)); L.push_back(fam_FA(3)); L.push_back(fam_FD(8, 2, 5)); }
+  std::vector<Level> L = {fam_curated(100), fam_FA(2), fam_FC(1, 16), fam_FB(2), fam_FD(9, 1, 3), fam_FB(3)};
+  if (T) { L.push_back(fam_FC(2, 8)); L.push_back(fam_FA(3)); L.push_back(fam_FD(9, 2, 5)); }
   size_t maxl = 5; int horizon = T ? 600 : 300; size_t max_states = T ? 400000 : 120000;
   std::string prop = args.prop;
-  return drv::run<Case>(args, L, [=](const Case &c, vf::Stats &st) { explore(c, prop, st, maxl, horizon, max_states); }, {}, 300);
+  return drv::run<Case>(args, L, [=](const Case &c, vf::Stats &st) { explore(c, prop, st, maxl, horizon, max_states); }, {}, 60);
 }
